@@ -80,6 +80,35 @@ func refCompress(name string, data []byte) []byte {
 	return buf.Bytes()
 }
 
+// refCompressPadded is refCompress with pad empty stored blocks (5 bytes each: a sync-flush marker) in front of the data: a
+// legal deflate stream of any size that inflates to the same bytes - the compressed form larger than the message.
+func refCompressPadded(name string, data []byte, pad int) []byte {
+	if pad <= 0 {
+		return refCompress(name, data)
+	}
+	var buf bytes.Buffer
+	type flushWriter interface {
+		io.Writer
+		Flush() error
+		Close() error
+	}
+	var zw flushWriter
+	switch name {
+	case "gzip":
+		zw = gzip.NewWriter(&buf)
+	case "deflate":
+		zw = zlib.NewWriter(&buf)
+	default:
+		return data
+	}
+	for i := 0; i < pad; i++ {
+		_ = zw.Flush()
+	}
+	_, _ = zw.Write(data)
+	_ = zw.Close()
+	return buf.Bytes()
+}
+
 const refDecompressCap = 64 << 20
 
 func refDecompress(name string, data []byte) ([]byte, error) {
@@ -479,6 +508,7 @@ func appHeaders(h http.Header) map[string][]string {
 type WireMsg struct {
 	Data       []byte // codec-encoded, not yet compressed
 	Compressed bool   // per-frame choice (ignored for un-enveloped forms: whole body follows Compression)
+	Pad        int    // empty stored blocks in the compressed form (refCompressPadded)
 }
 
 type ClientReq struct {
@@ -538,7 +568,7 @@ func renderRequest(c *ClientReq) *RenderedReq {
 			data := m.Data
 			var fl byte
 			if m.Compressed && c.Compression != "" {
-				data = refCompress(c.Compression, data)
+				data = refCompressPadded(c.Compression, data, m.Pad)
 				fl = 1
 			}
 			r.Body = append(r.Body, envelope(fl, data)...)
@@ -598,7 +628,7 @@ func renderRequest(c *ClientReq) *RenderedReq {
 		if len(c.Msgs) > 0 {
 			r.Body = c.Msgs[0].Data
 			if c.Compression != "" {
-				r.Body = refCompress(c.Compression, r.Body)
+				r.Body = refCompressPadded(c.Compression, r.Body, c.Msgs[0].Pad)
 			}
 		}
 	case FormConnectGet:
@@ -643,7 +673,7 @@ func renderRequest(c *ClientReq) *RenderedReq {
 		if len(c.Msgs) > 0 {
 			r.Body = c.Msgs[0].Data
 			if c.Compression != "" {
-				r.Body = refCompress(c.Compression, r.Body)
+				r.Body = refCompressPadded(c.Compression, r.Body, c.Msgs[0].Pad)
 			}
 			ct := c.ContentType
 			if ct == "" {
